@@ -42,7 +42,7 @@ def cases(tier):
     t0_lcs = ["request_scoped", "singleton"] if quick else ["request_scoped", "singleton", "transient"]
     chains = ["V1", "V2R", "V2V"]
     view_lcs = ["request_scoped"] if quick else ["request_scoped", "transient"]
-    mws = [None, "pre"] if quick else [None, "pre", "wrap", "post"]
+    mws = [None, "pre", "wrap"] if quick else [None, "pre", "wrap", "post"]  # wrap: the view travels through a `Next` state struct
     for x, t0_lc, chain, view_lc, hmode, extra, mw in itertools.product(xs, t0_lcs, chains, view_lcs, ["V", "R"], ["0", "R", "V", "A"], mws):
         fl, cl = FLAVS[x]
         ops = [F.ctor_op(0, fl, "0", "s", t0_lc, cl), {"k": "ctor", "c": f"C_V1{fl}", "lc": view_lc}]
